@@ -31,11 +31,12 @@ def build_tt():
     return text, located, dropped
 
 
-TT_UNIT = Verus('c09_transaction_tips', build_tt, min_verified=15,
+TT_UNIT = Verus('c09_transaction_tips', build_tt, min_verified=16,
                 contract='Transaction::{flush, get_perspective, add_single, add_merge, commit} extracted (bodies verbatim except the abstract braid call and two iterator rewrites in commit), transactions of any size, tips = keys(heads) + in-flight tip: '
                          'flush keeps the tip set and leaves nothing in flight; get_perspective(parent) makes parent the in-flight tip (tips + {parent}), re-using the current perspective or writing it out first; '
                          'add_single accepted => tips\' = (tips - {parent}) + {command} (the frontier step); add_merge => tips\' = (tips - {left, right}) + {merge command}; rejected by the policy => tips unchanged and the transaction stays committable '
-                         '(never an empty perspective in flight, which storage.write refuses); commit: no captured stamp => Ok(false), stale stamp => ConcurrentTransaction, both before anything is written; Ok(true) => the committed head ids are EXACTLY the tips and the stamp moved; any other outcome leaves the committed head set and stamp untouched; invariant: a perspective is in flight iff phead is set, it is non-empty, phead = its last command and is not among the written tips')
+                         '(never an empty perspective in flight, which storage.write refuses); commit: no captured stamp => Ok(false), stale stamp => ConcurrentTransaction, both before anything is written; Ok(true) => the committed head ids are EXACTLY the tips and the stamp moved; any other outcome leaves the committed head set and stamp untouched; invariant: a perspective is in flight iff phead is set, it is non-empty, phead = its last command and is not among the written tips; '
+                         'lemma over these contracts (pure proof, abstract command graph): frontier(g + c) = (frontier(g) - parents(c)) + {c} — the step the tips are proved to take, so by induction from the previous commit the committed tips are exactly the commands without a committed descendant')
 UNITS = [
     TT_UNIT,
     Verus('c09_head_set', build, min_verified=7,
@@ -53,7 +54,7 @@ UNITS = [
 TRUSTED = ['derive(Ord) of LocatedAddress is a strict total order (three axioms in the Verus unit; concrete definition checked by Kani on the real type)',
            'std slice::binary_search on a sorted slice (documented semantics, external_body)',
            'havoc Storage/Perspective (KT mocks) for the transaction bookkeeping harnesses']
-ASSUMPTIONS = ['"exactly the commands without committed descendant" is an induction over the ingest history: written in DESIGN.md, not machine-checked',
+ASSUMPTIONS = ['"exactly the commands without committed descendant": the induction step is machine-checked as a lemma over the contracts (lemma_frontier_step); the induction itself over the ingest history (each accepted command goes through add_single / add_merge once, with its real parents) is stated, not mechanised',
                'in add_merge and commit the braid (evaluate_braid: merged fact index of several tips) and choose_policy are abstract; HeadSet::push is used through its contract (unit c09_head_set)',
                'in the Verus unit Storage / Perspective / Policy / Sink / locate are abstract: storage.write refuses an empty perspective and heads the segment with the perspective\'s last command; '
                'call_rule and revert do not add or drop commands; add_single is only reached for a command that is not a tip (add_commands checks locate first)']
